@@ -1,15 +1,24 @@
 import RbModel.Sexp
 import RbModel.Arr
+import RbModel.ArrPath
+import RbModel.Drv.Num
 /-! Line-protocol handlers for `RbModel.Arr` (requests `arr.*`).
 
 * `(arr.absIndex ((lb ub) ...) (i ...))`   → `k` or `none`
 * `(arr.absIndex32 ((lb ub) ...) (i ...))` → `k` or `none` (the `i32` wrap-around transcription)
 * `(arr.dimsLen ((lb ub) ...))`            → `n`
+* `(arr.dimsLenChecked ((lb ub) ...))`     → `n` or `none` (Out of memory: the count does not fit 64 bits)
 * `(arr.script ((lb ub) ...) dflt (op ...))` with `op` one of `(s (i ...) v)`, `(g (i ...))`, `(lb n)`, `(ub n)`,
   `(len)`; answers the list of results (`ok` / value / `e9` for Subscript out of range)
 * `(arr.rec ((name v) ...) (op ...))` with names as lists of code points and `op` one of `(s name v)`,
   `(g name)`, `(names)`; results `ok` / value / `absent` / list of folded names
 * `(arr.fixLength (cp ...) n)`             → `(cp ...)`
+* `(arr.path ((name val) ...) (op ...))`: a variable map and a sequence of operations on paths.
+  `val` = `(leaf <num value>)` | `(new ((lb ub) ...) val)` (as `VArray::new`) | `(udt ((name val) ...))`;
+  `path` = `(root name)` | `(elem path (i ...))` | `(prop path name)`; `ety` = `(num int|long|sgl|dbl|str)` | `(fix n)`;
+  `op` = `(r path)` (read: the scalar, `container`, or `none`) | `(a path static-ety target-ety value)` (assignment:
+  `ok`, `e9` = the store failed, `(err …)`, `inexact`) | `(w path target-ety value)` (by-reference write-back);
+  num values as in `num.*` requests.
 -/
 namespace RbModel.Drv.Arr
 open RbModel
@@ -92,6 +101,81 @@ def recScript (r : RbModel.Arr.Rec Int) : List Sexp → List String → Option (
       | some (r', s) => recScript r' ops (s :: acc)
       | none => none
 
+
+open RbModel.ArrPath in
+/-- A value description; `fuel` bounds the nesting depth. -/
+def pval? : Nat → Sexp → Option ArrPath.Val
+  | 0, _ => none
+  | _ + 1, Sexp.list [Sexp.atom "leaf", v] => do
+      let v ← RbModel.Drv.Num.val? v
+      pure (.leaf v)
+  | fuel + 1, Sexp.list [Sexp.atom "new", d, v] => do
+      let d ← dims? d
+      let v ← pval? fuel v
+      pure (.arr d (List.replicate (RbModel.Arr.dimsLen d) v))
+  | fuel + 1, Sexp.list [Sexp.atom "udt", Sexp.list fs] => do
+      let fs ← fs.mapM fun f =>
+        match f with
+        | Sexp.list [n, v] => do
+            let n ← chars? n
+            let v ← pval? fuel v
+            pure (n, v)
+        | _ => none
+      pure (.udt (RbModel.Arr.Rec.new fs).fields)
+  | _, _ => none
+
+def path? : Nat → Sexp → Option ArrPath.Path
+  | 0, _ => none
+  | _ + 1, Sexp.list [Sexp.atom "root", n] => do pure (.root (← chars? n))
+  | fuel + 1, Sexp.list [Sexp.atom "elem", p, i] => do
+      let p ← path? fuel p
+      let i ← i.ints?
+      pure (.elem p i)
+  | fuel + 1, Sexp.list [Sexp.atom "prop", p, n] => do
+      let p ← path? fuel p
+      let n ← chars? n
+      pure (.prop p n)
+  | _, _ => none
+
+def ety? : Sexp → Option ArrPath.ETy
+  | Sexp.list [Sexp.atom "num", t] => do pure (.num (← RbModel.Drv.Num.ty? t))
+  | Sexp.list [Sexp.atom "fix", n] => do pure (.fix (← n.nat?))
+  | _ => none
+
+def showStored : RbModel.Num.Res (Option ArrPath.Vars) → String
+  | .ok (some _) => "ok"
+  | .ok none => "e9"
+  | .err e => "(err " ++ RbModel.Drv.Num.showErr e ++ ")"
+  | .inexact => "inexact"
+
+def keepVars (vars : ArrPath.Vars) : RbModel.Num.Res (Option ArrPath.Vars) → ArrPath.Vars
+  | .ok (some v) => v
+  | _ => vars
+
+def pathOp (vars : ArrPath.Vars) : Sexp → Option (ArrPath.Vars × String)
+  | Sexp.list [Sexp.atom "r", p] => do
+      let p ← path? 16 p
+      match ArrPath.resolve vars p with
+      | some (.leaf v) => pure (vars, RbModel.Drv.Num.showVal v)
+      | some _ => pure (vars, "container")
+      | none => pure (vars, "none")
+  | Sexp.list [Sexp.atom "a", p, s, t, v] => do
+      let p ← path? 16 p; let s ← ety? s; let t ← ety? t; let v ← RbModel.Drv.Num.val? v
+      let r := ArrPath.assign vars p s t v
+      pure (keepVars vars r, showStored r)
+  | Sexp.list [Sexp.atom "w", p, t, v] => do
+      let p ← path? 16 p; let t ← ety? t; let v ← RbModel.Drv.Num.val? v
+      let r := ArrPath.writeBack vars p t v
+      pure (keepVars vars r, showStored r)
+  | _ => none
+
+def pathScript (vars : ArrPath.Vars) : List Sexp → List String → Option (List String)
+  | [], acc => some acc.reverse
+  | op :: ops, acc =>
+      match pathOp vars op with
+      | some (vars', s) => pathScript vars' ops (s :: acc)
+      | none => none
+
 def handle (cmd : String) (args : List Sexp) : Option String :=
   match cmd, args with
   | "arr.absIndex", [d, i] => do
@@ -103,6 +187,9 @@ def handle (cmd : String) (args : List Sexp) : Option String :=
   | "arr.dimsLen", [d] => do
       let d ← dims? d
       pure (toString (RbModel.Arr.dimsLen d))
+  | "arr.dimsLenChecked", [d] => do
+      let d ← dims? d
+      pure (optNat (RbModel.Arr.dimsLenChecked d 1))
   | "arr.script", [d, dflt, Sexp.list ops] => do
       let d ← dims? d; let dflt ← dflt.int?
       let rs ← arrScript (RbModel.Arr.VArray.new d dflt) ops []
@@ -110,6 +197,16 @@ def handle (cmd : String) (args : List Sexp) : Option String :=
   | "arr.rec", [Sexp.list fields, Sexp.list ops] => do
       let fs ← fields.mapM field?
       let rs ← recScript (RbModel.Arr.Rec.new fs) ops []
+      pure ("(" ++ " ".intercalate rs ++ ")")
+  | "arr.path", [Sexp.list vs, Sexp.list ops] => do
+      let vars ← vs.mapM fun f =>
+        match f with
+        | Sexp.list [n, v] => do
+            let n ← chars? n
+            let v ← pval? 16 v
+            pure (n, v)
+        | _ => none
+      let rs ← pathScript vars ops []
       pure ("(" ++ " ".intercalate rs ++ ")")
   | "arr.fixLength", [s, n] => do
       let s ← chars? s; let n ← n.nat?
